@@ -449,7 +449,8 @@ def run_raman(case, ctx):
         pos_km = round(length * G.rnd(rng, 0.2, 0.8, 2), 1)
         if not on_grid:
             pos_km = round(pos_km + G.pick(rng, [0.0375, 0.0625, 0.0123, 0.0881]), 4)
-        val = G.pick(rng, [0.5, 1.0, 2.0])
+        # (a negative value is a concentrated gain - an in-line booster modelled as a lumped element: applied once too)
+        val = G.pick(rng, [0.5, 1.0, 2.0, 2.0, -1.0, -0.5])
         set_sim(method, order, dz)
         e0, _ = raman_fibre(rng2, [], length_km=length, cls=Fiber, loss_coef=fp['loss_coef'])
         lumped = [{'position': pos_km, 'loss': val}]
